@@ -132,6 +132,7 @@ def run(chk):
     for i in range(NCHUNK):
         chk.section(f"cfg-builder-{i}", lambda i=i: layer_a(chk, i))
     chk.section("block-interfaces", lambda: layer_b(chk))
+    chk.section("compile_bb", lambda: layer_b3(chk))
     for i in range(NCH_C):
         chk.section(f"bounded-{i}", lambda i=i: layer_c(chk, i))
     chk.expected_min_obligations = 60
@@ -356,3 +357,103 @@ def layer_c(chk, i):
     if w:
         o.replay.update({"script": ORACLE + REPLAY_ONE, "input": {"src": w["src"], "L": L}})
     chk.record(f"bounded[{i}/{NCH_C}]:enough-programs-accepted", res["accepted"] >= 4, f"{res['accepted']} accepted of {res['programs']}", kind="reachability")
+
+
+def layer_b3(chk):
+    """compile_bb (compiler/cfg_compiler.py), real code against a recording CFG builder.  For every
+    block shape — entry / inner block; one successor (another block, the exit) / two successors
+    whose rows hold the same places / different places — the block takes its inputs in the order
+    its signature gives (entry) or sort_vars gives (any other block), binds input wire k to input
+    place k, compiles its statements, and sets as outputs:
+      * the branch value: Tag(0, unit) for a single successor; read_bool of the compiled predicate
+        for two (so tag 1 = True selects successors[1]); wrapped by choose_vars_for_tuple_sum over
+        the sorted droppable places of each successor's row when the rows differ;
+      * then the wires of the output places: the single row, sorted unless the successor is the
+        exit; the shared sorted row; or the sorted non-droppable places when rows differ.
+    Together with sort_vars' canonical order (B1) this is the statement that a block hands each
+    successor the values of exactly the places that successor declares, position by position."""
+    CC = "guppylang_internals.compiler.cfg_compiler"
+    CORE = "guppylang_internals.checker.core"
+    e = mk_engine(chk)
+    e.func_info(CC, "compile_bb")
+    m = e.module(CC)
+
+    def setup(it, shape):
+        V = it.lookup_global(e.module(CORE), "Variable")
+        IF = it.lookup_global(e.module("guppylang_internals.tys.ty"), "InputFlags")
+        nof = it.getattr(IF, "NoFlags")
+        D, N = SObj(ClassVal("Ty", builtin=True), {"droppable": True, "to_hugr": Builtin("to_hugr", lambda c: "H-D")}), SObj(ClassVal("Ty", builtin=True), {"droppable": False, "to_hugr": Builtin("to_hugr", lambda c: "H-N")})
+        var = lambda n, t: SObj(V, {"name": n, "ty": t, "defined_at": None, "flags": nof, "is_func_input": False})  # noqa: E731
+        pool = {"a": var("a", D), "b": var("b", D), "c": var("c", D), "q": var("q", N), "r": var("r", N)}
+        log = []
+        block = SObj(ClassVal("Block", builtin=True), {"input_node": [f"IN{k}" for k in range(len(shape[1]))]})
+        block.fields["set_block_outputs"] = Builtin("set_block_outputs", lambda br, *outs: log.append(("outputs", br, list(outs))))
+        it.ctx.mod_globals(m)["OpaqueBool"] = "OPAQUE-BOOL"
+        hugr = SObj(ClassVal("H", builtin=True), {"port_type": Builtin("port_type", lambda p: "OPAQUE-BOOL")})
+        builder = SObj(ClassVal("CfgBuilder", builtin=True), {"exit": "EXIT-BLOCK", "hugr": hugr})
+        builder.fields["add_entry"] = Builtin("add_entry", lambda: (log.append(("add_entry",)), block)[1])
+        builder.fields["add_block"] = Builtin("add_block", lambda *tys: (log.append(("add_block", list(tys))), block)[1])
+        dfb = SObj(ClassVal("DfBuilder", builtin=True), {"add_op": Builtin("add_op", lambda op, *w: ("op", op, w))})
+        store = {}
+        dfg = it.exec_snippet(m, "class _D:\n    def __init__(self, b, store):\n        self.builder = b\n        self.store = store\n    def __getitem__(self, k):\n        return ('wire', k.name, self.store.get(k.name))\n    def __setitem__(self, k, v):\n        self.store[k.name] = v\nd = _D(b, store)\n", {"b": dfb, "store": store})["d"]
+        e.models["guppylang_internals.compiler.core:DFContainer"] = lambda it2, a, k: dfg
+        sc = SObj(ClassVal("StmtCompiler", builtin=True), {"compile_stmts": Builtin("compile_stmts", lambda st, d: (log.append(("stmts", st, dict(store))), d)[1])})
+        e.models["guppylang_internals.compiler.stmt_compiler:StmtCompiler"] = lambda it2, a, k: sc
+        pred_wire = SObj(ClassVal("Wire", builtin=True), {"out_port": Builtin("out_port", lambda: "PORT")})
+        ec = SObj(ClassVal("ExprCompiler", builtin=True), {"compile": Builtin("compile", lambda ex, d: (log.append(("pred", ex)), pred_wire)[1])})
+        e.models["guppylang_internals.compiler.expr_compiler:ExprCompiler"] = lambda it2, a, k: ec
+        e.models["guppylang_internals.std._internal.compiler.tket_bool:read_bool"] = lambda it2, a, k: "read_bool"
+        e.models[f"{CC}:choose_vars_for_tuple_sum"] = lambda it2, a, k: ("TUPLE-SUM", k["unit_sum"], [[p.fields["name"] for p in row] for row in k["output_vars"]])
+        e.ext_models["hugr.ops.Tag"] = lambda it2, a, k: ("Tag", a[0], a[1])
+        e.ext_models["hugr.tys.UnitSum"] = lambda it2, a, k: ("UnitSum", a[0])
+        is_entry, inputs, rows, to_exit = shape
+        succs = [SObj(ClassVal("CheckedBB", builtin=True), {"is_exit": to_exit, "idx": 10 + i}) for i in range(len(rows))]
+        bb = SObj(ClassVal("CheckedBB", builtin=True), {"is_exit": False, "reachable": True, "statements": "STMTS", "branch_pred": "PRED" if len(rows) > 1 else None, "successors": succs,
+                                                        "sig": SObj(ClassVal("Signature", builtin=True), {"input_row": [pool[x] for x in inputs], "output_rows": [[pool[x] for x in r] for r in rows]})})
+        r = it.call(it.lookup_global(m, "compile_bb"), [bb, builder, is_entry, "CTX"], {})
+        return log, r is block, pred_wire
+
+    def srt(names):
+        return sorted(names, key=lambda x: (x in ("q", "r"), x))
+    shapes = [
+        (True, ["c", "a", "q"], [["q", "a"]], False), (False, ["c", "a", "q"], [["q", "a"]], False), (False, ["r", "b", "q", "a"], [["b", "q"]], True), (True, [], [[]], True),
+        (False, ["c", "q", "a"], [["q", "c", "a"], ["a", "q", "c"]], False), (True, ["b", "a"], [["b"], ["a", "b"]], False),
+        (False, ["q", "b", "a", "r"], [["r", "b", "q"], ["q", "a", "r"]], False), (False, ["a"], [[], ["a"]], False), (False, ["q", "c", "b"], [["c", "q"], ["q", "b"]], False),
+    ]
+    for shape in shapes:
+        is_entry, inputs, rows, to_exit = shape
+
+        def post(p, shape=shape):
+            is_entry, inputs, rows, to_exit = shape
+            if p.kind != "return":
+                return z3.BoolVal(False)
+            log, ret_is_block, pred_wire = p.value
+            ins = inputs if is_entry else srt(inputs)
+            want_first = ("add_entry",) if is_entry else ("add_block", ["H-N" if x in ("q", "r") else "H-D" for x in ins])
+            ok = ret_is_block and log[0] == want_first
+            st = [x for x in log if x[0] == "stmts"]
+            ok = ok and len(st) == 1 and st[0][1] == "STMTS" and st[0][2] == {x: f"IN{k}" for k, x in enumerate(ins)}
+            outs = [x for x in log if x[0] == "outputs"]
+            ok = ok and len(outs) == 1 and log[-1] is outs[0]
+            if not ok:
+                return z3.BoolVal(False)
+            _, br, wires = outs[0]
+            names = [w[1] for w in wires]
+            if len(rows) == 1:
+                ok = br == ("op", ("Tag", 0, ("UnitSum", 1)), ()) and names == (rows[0] if to_exit else srt(rows[0])) and not any(x[0] == "pred" for x in log)
+            else:
+                rb = ("op", "read_bool", (pred_wire,))
+                ok = [x for x in log if x[0] == "pred"] == [("pred", "PRED")]
+                if all(set(r) == set(rows[0]) for r in rows):
+                    ok = ok and br == rb and names == srt(rows[0])
+                else:
+                    ok = ok and br == ("TUPLE-SUM", rb, [[x for x in srt(r) if x not in ("q", "r")] for r in rows]) and names == [x for x in srt(rows[0]) if x in ("q", "r")]
+            # every output wire is the current wire of that place (after the statements ran)
+            ok = ok and all(w[2] == (f"IN{ins.index(w[1])}" if w[1] in ins else None) for w in wires)
+            return z3.BoolVal(bool(ok))
+        tag = f"{'entry' if is_entry else 'inner'},inputs={'+'.join(inputs) or '-'},rows={'|'.join('+'.join(r) or '-' for r in rows)}{',to-exit' if to_exit else ''}"
+        chk.prove_paths(f"compile_bb[{tag}]:inputs-in-signature/sorted-order;branch-value;outputs-per-successor-row", e.explore(lambda it, shape=shape: setup(it, shape)), post, func=f"{CC}:compile_bb")
+    for k in ("guppylang_internals.compiler.core:DFContainer", "guppylang_internals.compiler.stmt_compiler:StmtCompiler", "guppylang_internals.compiler.expr_compiler:ExprCompiler",
+              "guppylang_internals.std._internal.compiler.tket_bool:read_bool", f"{CC}:choose_vars_for_tuple_sum"):
+        e.models.pop(k, None)
+    chk.use_engine(e)
